@@ -118,6 +118,14 @@ C06_IDIOMS = {
                                             SetG("m", Call("std.max_by_key", Closure(["k", "v"], Set("f", Closure([], Ret(Op("Add", Rd("base"), Rd("v"))))),
                                                                                      Ret(Dyn(Rd("f")))), Rd("t")))],
                                            natives=NATIVES + [{"name": "call1", "arity": 2, "beh": "call"}]),
+    # two captured variables are open at the same time in two frames; the later one is closed first and its closure survives,
+    # the earlier one's closure dies: the earlier variable's value is garbage then
+    "later-capture-outlives-earlier": Prog([SetG("g", Call("outer")), SetG("junk", Str("garbage one")), SetG("r", Dyn(Rd("g"))),
+                                            SetG("junk", Str("garbage two"))],
+                                           ("outer", [], [Set("y", Str("a long string that only the dead closure refers to")),
+                                                          Set("c", Closure([], Ret(Rd("y")))), Set("keep", Call("inner", Int(5))),
+                                                          SetG("len", Op("Len", Dyn(Rd("c")))), Ret(Rd("keep"))]),
+                                           ("inner", ["a"], [Set("x", Op("Add", Rd("a"), Int(1))), Ret(Closure([], Ret(Rd("x"))))])),
     # closure capturing a parameter and a local of a function called with arguments, early return in between
     "capture-param-early-return": Prog([Set("k", Int(9)), Set("f", Call("mk", Int(4), Int(6))), SetG("r", Dyn(Rd("f"), Int(1)))],
                                        ("mk", ["a", "b"], [Set("s", Op("Add", Rd("a"), Rd("b"))),
@@ -182,4 +190,28 @@ C07_IDIOMS = {
                                    C("SetProperty", [Int(6), Rd("t"), Nil()]), C("SetProperty", [Int(7), Rd("t"), Op("Add", Int(1), Int(1))]),
                                    C("SetProperty", [Int(8), Rd("t"), Int(2)]), SetG("t", Rd("t")), SetG("n", Op("Len", Rd("t"))),
                                    SetG("missing", C("GetProperty", [Rd("t"), Str("zz")]))]),
+}
+
+
+# ---- C19: the ordering used by min / max / sorting agrees with equality: equal sort keys are ties, and ties keep the
+# order of the entries whatever their table keys are --------------------------------------------------------------------------
+def _tied(*kv):
+    stm = [Set("t", Table())]
+    for k, v in kv:
+        stm.append(C("SetProperty", [v, Rd("t"), k]))
+    return stm
+
+
+C19_SORT_IDIOMS = {
+    "ties-under-descending-keys": Prog(_tied((Int(2), Int(5)), (Int(0), Int(5)), (Int(3), Int(4)), (Int(1), Int(5))) +
+                                       [SetG("s", Call("std.sorted", Rd("t"))), SetG("mn", Call("std.min", Rd("t"))),
+                                        SetG("mx", Call("std.max", Rd("t"))),
+                                        SetG("k", Call("std.sorted_by_key", Closure(["k", "v"], Ret(Int(0))), Rd("t")))]),
+    "int-real-ties": Prog(_tied((Str("bb"), Int(1)), (Str("a"), Real(1, 0)), (Int(9), Int(1)), (Int(4), Real(1, 1))) +
+                          [SetG("s", Call("std.sorted", Rd("t"))), SetG("mx", Call("std.max", Rd("t"))),
+                           SetG("mn", Call("std.min", Rd("t")))]),
+    "removed-and-stored-again": Prog(_tied((Int(0), Int(7)), (Int(1), Int(7)), (Int(2), Int(7))) +
+                                     [SetG("p", Op("PopTable", Rd("t"))), Set("u", Table()),
+                                      C("SetProperty", [Int(7), Rd("u"), Int(1)]), C("SetProperty", [Int(7), Rd("u"), Int(0)]),
+                                      SetG("s", Call("std.sorted", Rd("u"))), SetG("mx", Call("std.max_by_key", Closure(["k", "v"], Ret(Rd("v"))), Rd("u")))]),
 }
